@@ -20,13 +20,17 @@
 #include "rt.h"
 #include "replay.h"
 
-/* counter.c keeps its struct private */
+/* counter.c keeps its struct private: the build copies its definition from the tree under test (uut_structs.h) */
+#define WANT_UUT_COUNTER_STRUCT
+#include "uut_structs.h"
+#ifndef HAVE_UUT_COUNTER_STRUCT
 struct nsync_counter_s_ {
 	nsync_atomic_uint32_ waited;
 	nsync_mu counter_mu;
 	nsync_atomic_uint32_ value;
 	struct nsync_dll_element_s_ *waiters;
 };
+#endif
 
 #define MAXOPS 16
 #define MAXOBJ 8
